@@ -77,7 +77,7 @@ def map_scenario(sc):
     spawned = set(); early_recv = {}     # handler -> LRecv labels already emitted at the emit stamp
     loop_pc = {}; late_emit = {}; unspawned_emit = {}
     consumed = set()     # seq of add.signalled events already emitted (hand-off at the earlier stamp)
-    pending_hc = set()
+    pending_hc = set(); pending_pubclose = {}
     def who(g):
         if g == main_g[0]: return 'LMain'
         if g == watch_g[0]: return 'LWatch'
@@ -146,6 +146,8 @@ def map_scenario(sc):
                 lab('LPublish %d' % h, ['AProcessed %d %s' % (h, b(k[1]))]); m.hist.append(('AProcessed %d %s' % (h, b(k[1])), e))
             elif w == 'pubclose':
                 m.hist.append(('APubClose %d' % int(k[0]), e))
+                if g in pending_pubclose:
+                    h = pending_pubclose.pop(g); lab('LLoop %d' % h, ['APubClose %d' % int(k[0])]); loop_pc[h] = 'wgdone'
             elif w == 'sub.close_called':
                 h = int(k[0])
                 if h in pending_hc:
@@ -240,7 +242,9 @@ def map_scenario(sc):
         elif w == 'loop.range_done':
             h = hnum(k[0]); lab('LLoop %d' % h); loop_pc[h] = 'pubclose'
         elif w == 'loop.pub_close':
-            h = hnum(k[0]); lab('LLoop %d' % h, ['APubClose %d' % pub_of(h)] if pub_of(h) >= 0 else []); loop_pc[h] = 'wgdone'
+            h = hnum(k[0])
+            if pub_of(h) >= 0: pending_pubclose[g] = h     # takes effect at the publisher's own Close stamp (under its mutex)
+            else: lab('LLoop %d' % h, []); loop_pc[h] = 'wgdone'
         elif w == 'loop.wg_done':
             h = hnum(k[0])
             if loop_pc.get(h) == 'pubclose': lab('LLoop %d' % h)
@@ -339,17 +343,17 @@ ASSUMPTIONS = [
     'data races are outside the model',
 ]
 
-RULE = ('lifecycle client programs on a real Router with scripted subscribers/publishers: 21 forced schedules (park rules at router.life.* hook points: Stop/Stopped right after Started(), empty start with the watcher held, '
-        'RunHandlers x4 held mid-loop, Stop before the goroutine is spawned, loop held before wg.Done, held handleClose, failing Subscribe, shared/unshared publishers, foreign context, second Run, calls before Run, Close x3), '
+RULE = ('lifecycle client programs on a real Router with scripted subscribers/publishers: 23 forced schedules (park rules at router.life.* hook points: Stop/Stopped right after Started(), empty start with the watcher held, '
+        'RunHandlers x4 held mid-loop, Stop before the goroutine is spawned, loop held before wg.Done, held handleClose, the RunHandlers of Run held until Running() is observed, cancel on an empty router, failing Subscribe, shared/unshared publishers, foreign context, second Run, calls before Run, Close x3), '
         'pause point x client action pairs on a fixed 3-handler program, and seeded random programs over the C10 grammar with seeded yields at every hook; '
         'non-trivial = at least 25 model labels replayed; distinct by program and sizes.')
 
 def run_family(ctx, res, ncases=None, forced=None, pairs=None, seed_offset=0, only=None):
     pid, tier, seed = ctx['pid'], ctx['tier'], ctx['seed'] + seed_offset
     binary = C.build_harness()
-    ncases = ncases if ncases is not None else (40 if tier == 'quick' else 400)
+    ncases = ncases if ncases is not None else (30 if tier == 'quick' else 400)
     forced = forced if forced is not None else (1 if tier == 'quick' else 4)
-    pairs = pairs if pairs is not None else (12 if tier == 'quick' else 120)
+    pairs = pairs if pairs is not None else (10 if tier == 'quick' else 120)
     args = ['c10', '-cases', str(ncases), '-forced', str(forced), '-pairs', str(pairs), '-seed', str(seed)]
     if only: args += ['-only', only]
     scs, _ = C.run_harness(binary, args, pid, 'c10_%d.json' % seed, timeout=3000)
